@@ -653,7 +653,7 @@ def cond(e, env=None):
             if wide and isinstance(d, dict) and d.get("k") == "Bin" and d.get("op") == "-":
                 return cond({"k": "Bin", "op": op, "t": "bool", "l": e.get("l"), "lhs": d["lhs"], "rhs": d["rhs"]}, env)
         if rv == 0 and lv is None:
-            uns = lt.startswith("unsigned") or lt == "bool"
+            uns = never_negative(l)
             if op == "!=" or (op == ">" and uns):
                 return nz_formula(l, env)
             if op == "==" or (op == "<=" and uns):
@@ -663,7 +663,7 @@ def cond(e, env=None):
             if op == "<" and uns:
                 return ("F",)
         if lv == 0 and rv is None:
-            uns = rt.startswith("unsigned") or rt == "bool"
+            uns = never_negative(r)
             if op == "!=" or (op == "<" and uns):
                 return nz_formula(r, env)
             if op == "==" or (op == ">=" and uns):
@@ -702,6 +702,36 @@ def cond(e, env=None):
     if p is not None:
         return ("nz", path_str(p))
     return ("call", show(e))
+
+
+_INT_BITS = {"bool": (1, False), "unsigned char": (8, False), "signed char": (8, True), "char": (8, True),
+             "unsigned short": (16, False), "short": (16, True), "unsigned int": (32, False), "int": (32, True),
+             "unsigned long": (64, False), "long": (64, True), "unsigned long long": (64, False), "long long": (64, True)}
+
+
+def never_negative(e, depth=0):
+    """The value of e as the comparison sees it cannot be negative: an unsigned / bool operand, possibly behind conversions
+    that keep its value (promotion of a narrower unsigned type to a wider signed one).  A conversion of an unsigned value to
+    a signed type of the same or a smaller width (`int64_t wide = u64;`) can produce a negative value."""
+    if not isinstance(e, dict) or depth > 12:
+        return False
+    t = (e.get("t") or "").replace("const ", "").replace("volatile ", "")
+    k = e.get("k")
+    if k in ("DefaultArg", "DefaultInit"):
+        return never_negative(e.get("e"), depth + 1)
+    if k == "Cast":
+        if t in _INT_BITS and not _INT_BITS[t][1]:
+            return True                      # converted to an unsigned type
+        inner = e.get("e")
+        it = ((inner or {}).get("t") or "").replace("const ", "").replace("volatile ", "") if isinstance(inner, dict) else ""
+        if t == it or e.get("ck") in ("LValueToRValue", "NoOp"):
+            return never_negative(inner, depth + 1)
+        if t in _INT_BITS and it in _INT_BITS:
+            if _INT_BITS[t][0] > _INT_BITS[it][0] or (_INT_BITS[t][0] == _INT_BITS[it][0] and _INT_BITS[t][1] == _INT_BITS[it][1]):
+                return never_negative(inner, depth + 1)      # widening (or same type): the value is kept
+            return False
+        return False
+    return (t.startswith("unsigned") or t == "bool") and t.split("<")[0] in _INT_BITS
 
 
 def show_f(f):
